@@ -65,6 +65,15 @@ func GenMultiServiceFile(r *R, idx int, o RuntimeOpts) *ir.Request {
 		}
 		f.Services = append(f.Services, svc)
 	}
+	if o.SharedRequest {
+		ref := &ir.Message{Name: "AccountRef", Fields: []*ir.Field{{Name: "org_id", Number: 1, Kind: "string"}, {Name: "id", Number: 2, Kind: "string"}, {Name: "rev", Number: 3, Kind: "int32"}}}
+		f.Messages = append(f.Messages, ref)
+		f.Services = append(f.Services, &ir.Service{Name: "Shared", BasePath: "/shared", Methods: []*ir.Method{
+			{Name: "Archive", Input: P + "AccountRef", Output: P + "Reply", Config: &ir.HTTPConfig{Path: "/accounts/{id}/archive", Method: "POST"}},
+			{Name: "Move", Input: P + "AccountRef", Output: P + "Reply", Config: &ir.HTTPConfig{Path: "/orgs/{org_id}/accounts/{id}", Method: "PUT"}},
+			{Name: "Bump", Input: P + "AccountRef", Output: P + "Reply", Config: &ir.HTTPConfig{Path: "/accounts/{id}/rev/{rev}", Method: "PATCH"}},
+		}})
+	}
 	if hdr {
 		// Header names are distinct within a service (service level and every method): the Go
 		// client names its typed option helpers from the header name alone (recorded under C13).
